@@ -429,7 +429,8 @@ func writeComputedFieldExpression(w *formatting.IndentedWriter, expression dsl.E
 		case *dsl.BinaryExpression:
 			tail.Run(func() {
 				requiresParentheses := false
-				if l, ok := t.Left.(*dsl.BinaryExpression); ok && l.Operator.Precedence() < t.Operator.Precedence() {
+				if l, ok := t.Left.(*dsl.BinaryExpression); ok && (l.Operator.Precedence() < t.Operator.Precedence() ||
+					(l.Operator.Precedence() == t.Operator.Precedence() && t.Operator == dsl.BinaryOpPow)) {
 					requiresParentheses = true
 				}
 
@@ -451,7 +452,12 @@ func writeComputedFieldExpression(w *formatting.IndentedWriter, expression dsl.E
 				case dsl.BinaryOpMul:
 					w.WriteString("*")
 				case dsl.BinaryOpDiv:
-					w.WriteString("//")
+					if isIntegerType(t.ResolvedType) {
+						w.WriteString("//")
+					} else {
+						// true division for floating-point (and complex) operands, as in C++
+						w.WriteString("/")
+					}
 				case dsl.BinaryOpPow:
 					w.WriteString("**")
 				default:
@@ -461,7 +467,8 @@ func writeComputedFieldExpression(w *formatting.IndentedWriter, expression dsl.E
 				w.WriteString(" ")
 
 				requiresParentheses = false
-				if r, ok := t.Right.(*dsl.BinaryExpression); ok && r.Operator.Precedence() < t.Operator.Precedence() {
+				if r, ok := t.Right.(*dsl.BinaryExpression); ok && (r.Operator.Precedence() < t.Operator.Precedence() ||
+					(r.Operator.Precedence() == t.Operator.Precedence() && t.Operator != dsl.BinaryOpPow)) {
 					requiresParentheses = true
 				}
 
@@ -1219,4 +1226,11 @@ func getTypeSyntaxWithGenricArgsReadFromTupleArgs(t dsl.Type, context dTypeExpre
 	}
 
 	return f.ToSyntax(t, context.namespace)
+}
+
+func isIntegerType(t dsl.Type) bool {
+	if p, ok := dsl.GetPrimitiveType(t); ok {
+		return dsl.GetPrimitiveKind(p) == dsl.PrimitiveKindInteger
+	}
+	return false
 }
